@@ -189,7 +189,23 @@ pub fn run(cfg: &Config) -> i32 {
     let ndocs = docs.len() as u64;
     let n = ndocs * (variants + 1);
     let root = vec!["fields".to_string()];
-    let total = par_for(cfg, n, |i, l| {
+    // rule-violating messages of the C04 enumeration (sweep points), in the envelope of a corpus message of the type
+    let mut extra: Vec<(String, Value)> = Vec::new();
+    for (mt, body) in crate::props::c04::sweep_bodies(cfg.tier.pick(300usize, 6000usize)) {
+        if let Some((_, env)) = docs.iter().find(|d| d.0 == mt) {
+            let mut j = env.clone();
+            j["fields"] = body;
+            extra.push((mt, j));
+        }
+    }
+    let nextra = extra.len() as u64;
+    let total = par_for(cfg, n + nextra, |i, l| {
+        if i >= n {
+            let (mt, j) = &extra[(i - n) as usize];
+            let case = Case::Json { mt: mt.clone(), json: j.to_string() };
+            judge(cfg, &case, l, &format!("MT{mt}/c04-point"));
+            return;
+        }
         let d = (i % ndocs) as usize;
         let k = i / ndocs;
         let (mt, doc) = &docs[d];
@@ -220,7 +236,7 @@ pub fn run(cfg: &Config) -> i32 {
     let mut rep = Report::default();
     let ncodesets = total.counters.keys().filter(|k| k.starts_with("codesets:")).count();
     rep.extra.insert("distinct_error_code_sets".into(), json!(ncodesets));
-    rep.rule = "cases = every corpus message of all 30 types plus JSON-surgery variants (1-3 random edits: remove a field or leaf, overwrite a code / currency / amount with a value seen elsewhere or a rule-relevant code word, resize or reverse arrays) read back through serde; each validated twice through four entry points. Non-trivial = the message deserialised and was validated; distinct = distinct message states (Debug digests)".into();
+    rep.rule = "cases = every corpus message of all 30 types plus JSON-surgery variants (1-3 random edits: remove a field or leaf, overwrite a code / currency / amount with a value seen elsewhere or a rule-relevant code word, resize or reverse arrays) read back through serde, plus the one- and two-dimensional sweep points of the C04 rule enumeration (stratum c04-point); each validated twice through four entry points. Non-trivial = the message deserialised and was validated; distinct = distinct message states (Debug digests)".into();
     rep.assumptions = vec!["error identity = (error code, Display text)".into(), "messages violating several rules at once arise from multi-edit surgery (counted under several-errors)".into()];
     rep.required_strata = crate::registry::MESSAGES.iter().map(|m| format!("MT{}/corpus", m.code)).collect();
     rep.min_evals = 1000;
